@@ -4,6 +4,7 @@ import (
 	"fmt"
 	"os"
 	"reflect"
+	"runtime/pprof"
 
 	"github.com/osmosis-labs/osmosis/v31/zzverif/core"
 )
@@ -24,12 +25,12 @@ type runner struct {
 }
 
 // evalHooks builds a fresh world and runs the hook driver; invalid configurations yield ok=false.
-func evalHooks(c Config, vac map[string]int64) (fails []Failure, deltas []epochDelta, tr int64, w *World, err error) {
+func evalHooks(c Config, upTo int64, vac map[string]int64) (fails []Failure, deltas []epochDelta, tr int64, w *World, err error) {
 	w, err = NewWorld(c)
 	if err != nil {
 		return nil, nil, 0, nil, err
 	}
-	fails, deltas, tr = w.runHooks(c.Epochs(), vac, nil)
+	fails, deltas, tr = w.runHooks(upTo, vac, nil)
 	return fails, deltas, tr, w, nil
 }
 
@@ -39,7 +40,7 @@ func (rn *runner) evalMemo(p Point) []Failure {
 	if fl, ok := rn.memo[k]; ok {
 		return fl
 	}
-	fails, _, _, w, err := evalHooks(c, rn.sink)
+	fails, _, _, w, err := evalHooks(c, c.Epochs(), rn.sink)
 	if err == nil {
 		w.Close()
 	}
@@ -48,14 +49,17 @@ func (rn *runner) evalMemo(p Point) []Failure {
 	return fails
 }
 
-// shrink moves a failing lattice point towards index 0 in every dimension as long as the same
+// shrink moves a failing lattice point towards the simplest value in every dimension as long as the same
 // assertion keeps failing on the real code, and returns the simplest failing point with its failure.
 func (rn *runner) shrink(p Point, first Failure) (Point, Failure) {
 	cur, curF := p, first
 	for changed := true; changed; {
 		changed = false
 		for _, d := range shrinkOrder {
-			for v := 0; v < cur[d]; v++ {
+			for _, v := range simpler[d] {
+				if v == cur[d] {
+					break // only values simpler than the current one
+				}
 				cand := cur
 				cand[d] = v
 				if fl, ok := find(rn.evalMemo(cand), curF.Assertion); ok {
@@ -87,7 +91,7 @@ func sameFailures(a, b []Failure) bool {
 func (rn *runner) point(p Point) {
 	r := rn.r
 	c := p.Config()
-	fails, deltas, tr, w, err := evalHooks(c, r.Vacuity)
+	fails, deltas, tr, w, err := evalHooks(c, c.Epochs(), r.Vacuity)
 	if err != nil {
 		r.Rejected["invalid_config:"+errClass(err)]++
 		return
@@ -105,8 +109,15 @@ func (rn *runner) point(p Point) {
 	}
 
 	if len(fails) > 0 {
-		// replay on a fresh application before believing anything
-		again, _, _, w2, err2 := evalHooks(c, rn.sink)
+		// replay on a fresh application (through the last epoch at which an assertion failed for the
+		// first time) before believing anything
+		last := int64(0)
+		for _, fl := range fails {
+			if fl.Epoch > last {
+				last = fl.Epoch
+			}
+		}
+		again, _, _, w2, err2 := evalHooks(c, last, rn.sink)
 		if err2 == nil {
 			w2.Close()
 		}
@@ -181,6 +192,11 @@ func main() {
 	r.Extra["sum_shrink_runs"] = int64(0)
 	r.Extra["sum_raw_failing_points"] = int64(0)
 	r.Extra["max_epochs_per_config"] = int64(0)
+	if pf := os.Getenv("C18_CPUPROFILE"); pf != "" {
+		fh, _ := os.Create(pf)
+		pprof.StartCPUProfile(fh)
+		defer pprof.StopCPUProfile()
+	}
 	if f.Replay != "" {
 		runReplay(f, r)
 		core.Finish(f, r)
